@@ -28,7 +28,8 @@ def toRhs (s : Seg) (selfTy : Ty) : Ty :=
   | .mk _ [.ty t] => Ty.expandSelf selfTy t
   | _ => selfTy
 
-def refType (t : Ty) : Ty := .ref none false t
+/-- `ref_type`: `&dyn A + B` is not a type, `&(dyn A + B)` is -/
+def refType (t : Ty) : Ty := .ref none false t.parenIfPlus
 def refTypeWith (t : Ty) (isRef : Bool) : Ty := if isRef then refType t else t
 
 /-- `change_owned` -/
